@@ -1,6 +1,6 @@
 (* Property C10 — sample result coding. Statements only; proofs live in Proofs/ and Gen/. *)
 From Coq Require Import List NArith ZArith Bool.
-From PV Require Import Lib.Table Model.Sample Model.GrpcStatus Proofs.SampleProofs Gen.GrpcStatusGen Gen.GrpcStatus_bridge Gen.ConstGen Gen.Const_bridge.
+From PV Require Import Lib.Table Model.Sample Model.GrpcStatus Model.Shoot Proofs.SampleProofs Proofs.ShootProofs Gen.GrpcStatusGen Gen.GrpcStatus_bridge Gen.ConstGen Gen.Const_bridge.
 Import ListNotations.
 Local Open Scope N_scope.
 
@@ -61,6 +61,125 @@ Print Assumptions C10_netcode.
 Theorem C10_ids_unique : forall start n, NoDup (ids_from start n) /\ length (ids_from start n) = n.
 Proof. intros s n; split; [apply ids_from_nodup|apply ids_from_length]. Qed.
 Print Assumptions C10_ids_unique.
+
+(* ---------------------------------------------------------------------------------------
+   One sample per request: BaseGun.Shoot as its control flow (Model/Shoot.v).
+   Quantified over the auto-tag settings, the ammo (tag, path, id, invalid or not), and
+   everything the network can do: Do fails with any error shape / a response with ANY status
+   arrives and the body read succeeds or fails with any error shape.
+   --------------------------------------------------------------------------------------- *)
+
+(* Every path through Shoot of every gun pandora constructs (no Connect hook), and of a gun
+   with a Connect hook that succeeds, reports exactly one sample: the one base_spec describes.
+   Paths: invalid ammo / request failed / body read failed / complete exchange. *)
+Theorem C10_one_sample : forall cfg h invalid id tag path x,
+  h <> HFail ->
+  length (base_shoot cfg h invalid id tag path x) = 1%nat /\
+  base_shoot cfg h invalid id tag path x = [base_spec cfg invalid id tag path x].
+Proof. intros; split; [apply base_shoot_one|apply base_shoot_spec]; assumption. Qed.
+Print Assumptions C10_one_sample.
+
+(* The optional Connect hook (set by no constructor in pandora; the CONNECT exchange of the
+   connect gun runs inside Client.Do and is covered by C10_one_sample): when it fails, Shoot
+   reports nothing itself - the hook's documented contract (base_test.go: "Connect should
+   report fail in sample itself") is to report its failure. *)
+Theorem C10_connect_hook_contract : forall cfg invalid id tag path x,
+  base_shoot cfg HFail invalid id tag path x = [].
+Proof. exact base_shoot_hook_failed. Qed.
+Print Assumptions C10_connect_hook_contract.
+
+(* Proto code = the received HTTP status, for every status, whether or not the body could be
+   read afterwards; 0 when no response arrived. *)
+Theorem C10_proto_code : forall cfg id tag path,
+  (forall st b, sm_proto (base_spec cfg false id tag path (XResp st b)) = st) /\
+  (forall t e, sm_proto (base_spec cfg false id tag path (XErr t e)) = 0).
+Proof. intros; split; intros; reflexivity. Qed.
+Print Assumptions C10_proto_code.
+
+(* Net code: 0 when the response was received completely; the errno-style code of the error
+   (C10_netcode) when the request or the body read failed, never 0 then. *)
+Theorem C10_net_code : forall cfg id tag path,
+  (forall st, sm_net (base_spec cfg false id tag path (XResp st BodyOk)) = 0) /\
+  (forall x t e, exchange_failed x = Some (t, e) ->
+     sm_net (base_spec cfg false id tag path x) = get_errno t e /\
+     (errnos_nonzero e -> sm_net (base_spec cfg false id tag path x) <> 0)).
+Proof. intros; split; [intros; reflexivity|intros x t e; apply base_spec_net_failed]. Qed.
+Print Assumptions C10_net_code.
+
+(* The sample carries the tag chosen by C10_tag_choice (never empty) and the ammo's id; an
+   invalid ammo is reported once with its tag marked __EMPTY__ and codes 0/0. *)
+Theorem C10_sample_tag_id : forall cfg id tag path x,
+  sm_tags (base_spec cfg false id tag path x) = shoot_tags cfg tag path /\
+  sm_id (base_spec cfg false id tag path x) = id /\
+  sm_tags (base_spec cfg false id tag path x) <> [] /\
+  base_spec cfg true id tag path x =
+    mkSample (match tag with [] => empty_tag | _ => tag ++ 124 :: empty_tag end) 0 0 id.
+Proof.
+  intros. destruct (base_spec_tags_id cfg id tag path x) as [A [B C]].
+  repeat split; try assumption.
+Qed.
+Print Assumptions C10_sample_tag_id.
+
+(* ---------------------------------------------------------------------------------------
+   Scenario shots: one sample per executed step.
+   --------------------------------------------------------------------------------------- *)
+
+(* HTTP scenario gun: the samples are exactly one per executed step (all steps up to and
+   including the first failing one), in order; a completed step is tagged <scenario>.<step>
+   with the received status and net code 0; the failing step is tagged
+   <scenario>.<step>|__EMPTY__ with proto code 0 and net code 999. *)
+Theorem C10_scenario_samples_http : forall name steps,
+  hscen_shoot name steps = hscen_spec name steps /\
+  length (hscen_shoot name steps) = length (executed (fun x => hstep_stops (snd x)) steps) /\
+  (forallb (fun x => negb (hstep_stops (snd x))) steps = true ->
+     executed (fun x => hstep_stops (snd x)) steps = steps) /\
+  (forall pre s post, steps = pre ++ s :: post ->
+     forallb (fun x => negb (hstep_stops (snd x))) pre = true -> hstep_stops (snd s) = true ->
+     executed (fun x => hstep_stops (snd x)) steps = pre ++ [s]).
+Proof.
+  intros name steps. split; [apply hscen_shoot_spec|]. split; [apply hscen_count|].
+  split; [apply executed_all|]. intros pre s post ->.
+  apply (executed_first_stop (fun x => hstep_stops (snd x))).
+Qed.
+Print Assumptions C10_scenario_samples_http.
+
+(* gRPC scenario gun: one sample per executed step, tagged <scenario>.<call tag>, proto code
+   0 (preprocessor / template / unknown method), 400 (payload does not fit) or the documented
+   mapping of the call status; a step stops the shot when shootStep returns an error. *)
+Theorem C10_scenario_samples_grpc : forall name steps,
+  gscen_shoot name steps = gscen_spec name steps /\
+  length (gscen_shoot name steps) = length (executed (fun x => gstep_stops (snd x)) steps) /\
+  (forall s, In s (gscen_shoot name steps) ->
+     exists tg st, In (tg, st) steps /\ sm_tags s = step_tag name tg /\ sm_proto s = gstep_code st /\ sm_net s = 0) /\
+  (forall st pf, gstep_code (GSCalled st pf) = doc_code st).
+Proof.
+  intros name steps. split; [apply gscen_shoot_spec|]. split; [apply gscen_count|].
+  split; [apply gscen_tags|]. intros st pf. apply grpc_code_is_documented.
+Qed.
+Print Assumptions C10_scenario_samples_grpc.
+
+Theorem C10_scenario_step_tags_http : forall name steps s,
+  In s (hscen_shoot name steps) ->
+  exists nm st, In (nm, st) steps /\
+    sm_tags s = match st with HStepOk _ => step_tag name nm | HStepFail => step_tag name nm ++ 124 :: empty_tag end.
+Proof. exact hscen_tags. Qed.
+Print Assumptions C10_scenario_step_tags_http.
+
+(* gRPC gun: exactly one sample per ammo on every path (unknown method, payload that does not
+   fit, call made), carrying the ammo's tag and the documented code of the call status. *)
+Theorem C10_grpc_one_sample : forall tag c,
+  grpc_shoot tag c = [mkSample tag (gcall_code c) 0 0] /\
+  (forall st, gcall_code (GCalled st) = doc_code st).
+Proof. intros; split; [reflexivity|intros st; apply grpc_code_is_documented]. Qed.
+Print Assumptions C10_grpc_one_sample.
+
+(* non-vacuity *)
+Example C10_shoot_example :
+  base_shoot (Build_autotag_cfg true 1 true) HNone false 7 [] [47;97;47;98] (XResp 503 (BodyErr false (EOp (ESys (EErrno 104)))))
+  = [mkSample [47;97] 503 104 7] /\
+  hscen_shoot [115] [([97], HStepOk 200); ([98], HStepFail); ([99], HStepOk 200)]
+  = [mkSample [115;46;97] 200 0 0; mkSample ([115;46;98] ++ 124 :: empty_tag) 0 999 0].
+Proof. split; vm_compute; reflexivity. Qed.
 
 (* non-vacuity: a concrete error shape meeting the errno hypothesis *)
 Example C10_netcode_example :
